@@ -8,8 +8,8 @@ Local Open Scope string_scope.
 Ltac ascii_cases c := destruct c as [[|] [|] [|] [|] [|] [|] [|] [|]].
 
 Lemma lit_char_facts c : lit_char c = true ->
-  rx_plain c = true /\ Ascii.eqb c slash = false /\ Ascii.eqb c star = false /\ Ascii.eqb c lbrace = false /\
-  Ascii.eqb c rbrace = false /\ Ascii.eqb c eqc = false /\ Ascii.eqb c dot = false.
+  Ascii.eqb c slash = false /\ Ascii.eqb c star = false /\ Ascii.eqb c lbrace = false /\
+  Ascii.eqb c rbrace = false /\ Ascii.eqb c eqc = false.
 Proof. ascii_cases c; vm_compute; intro H; try discriminate H; repeat split; reflexivity. Qed.
 
 Lemma word_char_facts c : is_word c = true ->
@@ -25,11 +25,11 @@ Proof.
 Qed.
 
 Lemma lit_no c l : sall lit_char l = true ->
-  (c = slash \/ c = star \/ c = lbrace \/ c = rbrace \/ c = eqc \/ c = dot) -> contains c l = false.
+  (c = slash \/ c = star \/ c = lbrace \/ c = rbrace \/ c = eqc) -> contains c l = false.
 Proof.
   intros H Hc. apply (sall_contains_false lit_char c); [|exact H].
-  intros a Ha. destruct (lit_char_facts a Ha) as (_ & H1 & H2 & H3 & H4 & H5 & H6).
-  destruct Hc as [->|[->|[->|[->|[->| ->]]]]]; assumption.
+  intros a Ha. destruct (lit_char_facts a Ha) as (H1 & H2 & H3 & H4 & H5).
+  destruct Hc as [->|[->|[->|[->| ->]]]]; assumption.
 Qed.
 
 Lemma word_no c l : sall is_word l = true ->
@@ -144,15 +144,7 @@ Proof. destruct st; simpl; try reflexivity. now rewrite sapp_assoc. Qed.
 
 Lemma lit_match_plain : forall l, sall lit_char l = true -> forall s,
   lit_match l s = match strip_prefix l s with Some r => Some (l, r) | None => None end.
-Proof.
-  induction l as [|a l IH]; intros Hl s; [reflexivity|].
-  simpl in Hl. apply andb_true_iff in Hl as [Ha Hl].
-  destruct (lit_char_facts a Ha) as (Hp & _ & _ & _ & _ & _ & Hd).
-  destruct s as [|b s]; simpl; [reflexivity|].
-  rewrite Hd, Hp. simpl.
-  destruct (Ascii.eqb a b) eqn:E; [|reflexivity].
-  apply Ascii.eqb_eq in E. subst b. rewrite (IH Hl s). now destruct (strip_prefix l s).
-Qed.
+Proof. reflexivity. Qed.
 
 Definition needs_slash (r : list rx) : Prop :=
   forall st c s, Ascii.eqb c slash = false -> Ascii.eqb c nl = false -> rmatch r st (String c s) = None.
@@ -942,31 +934,15 @@ Proof.
   rewrite !contains_app. rewrite H2. rewrite (contains_tails c d P Hcd H3). simpl. now rewrite Hcd.
 Qed.
 
-Lemma sample_ok_class t : aip_class t = true -> sample_request_ok (tmpl_print t) = negb (t_short t).
+Lemma named_has_rbrace t : contains rbrace (named_str t) = true.
 Proof.
-  intro Hc. unfold aip_class in Hc. repeat (apply andb_true_iff in Hc as [Hc ?]).
-  rename H into Hshape, H0 into Hpre_nd, H1 into Hshort, H2 into Hne, H3 into Hkey, H4 into Hokpost, H5 into Hoksub.
-  rename Hc into Hokpre. pose proof (is_ident_word _ Hkey) as Hw.
-  set (A := lead slash (map pseg (t_pre t))).
-  assert (HAl : contains lbrace A = false) by (apply lead_no; [reflexivity|apply psegs_no; [exact Hokpre|tauto]]).
-  assert (HAr : contains rbrace A = false) by (apply lead_no; [reflexivity|apply psegs_no; [exact Hokpre|tauto]]).
-  set (B := if t_short t then t_key t else t_key t ++ "=" ++ joinc slash (map pseg (t_sub t))).
-  assert (HN : named_str t = String lbrace (B ++ String rbrace "")).
-  { unfold named_str, B. destruct (t_short t); simpl; [reflexivity|]. now rewrite !sapp_assoc. }
-  assert (HBr : contains rbrace B = false).
-  { unfold B. destruct (t_short t); [apply word_no; [exact Hw|tauto]|].
-    rewrite contains_app. rewrite (word_no rbrace _ Hw) by tauto. simpl.
-    apply contains_joinc; [reflexivity|]. apply psegs_no; [exact Hoksub|tauto]. }
-  assert (HBe : contains eqc B = negb (t_short t)).
-  { unfold B. destruct (t_short t); [apply word_no; [exact Hw|tauto]|].
-    change (t_key t ++ "=" ++ joinc slash (map pseg (t_sub t))) with (t_key t ++ String eqc (joinc slash (map pseg (t_sub t)))).
-    apply contains_mid. }
-  unfold tmpl_print. rewrite joinc_mid. fold A. rewrite HN.
-  unfold sample_request_ok.
-  change (A ++ String lbrace (B ++ String rbrace "") ++ tails slash (map pseg (t_post t)))
-    with (A ++ String lbrace ((B ++ String rbrace "") ++ tails slash (map pseg (t_post t)))).
-  rewrite (cut_at_hit lbrace A _ HAl). rewrite HAr.
-  rewrite sapp_assoc. cbn [append]. rewrite (cut_at_hit rbrace B _ HBr). exact HBe.
+  unfold named_str. destruct (t_short t); rewrite !contains_app; simpl; rewrite ?orb_true_r; reflexivity.
+Qed.
+
+Lemma sample_ok_class t : sample_request_ok (tmpl_print t) = true.
+Proof.
+  unfold sample_request_ok, tmpl_print. rewrite joinc_mid. rewrite (contains_app rbrace).
+  rewrite (contains_app rbrace (named_str t)). rewrite named_has_rbrace. simpl. rewrite !orb_true_r. reflexivity.
 Qed.
 
 (* ---- the main statement ---- *)
@@ -974,16 +950,14 @@ Lemma routing_contribution_correct_l : forall (t : tmpl) (field v : string),
   aip_class t = true -> nl_free v = true ->
   contribution {| p_field := field; p_template := tmpl_print t |} v = Ok (aip_contribution t v) /\
   emit_param {| p_field := field; p_template := tmpl_print t |} =
-    (if t_short t then Err EValue
-     else if repr_fits ("^" ++ rx_print (rx_of t) ++ "$")
-     then Ok (BRegex ("^" ++ rx_print (rx_of t) ++ "$") (disambiguated field) (t_key t)) else Err ETrunc).
+    Ok (BRegex ("^" ++ rx_print (rx_of t) ++ "$") (disambiguated field) (t_key t)).
 Proof.
   intros t field v Hc Hn. split.
   - unfold contribution. cbn [p_template p_field]. rewrite print_nonempty. rewrite (convert_class t Hc).
     rewrite first_group_class. rewrite <- (sem_equiv t v Hc Hn). unfold contrib_of.
     destruct (rx_match (rx_of t) v) as [[cap|]|]; reflexivity.
   - unfold emit_param. cbn [p_template p_field]. rewrite print_nonempty. rewrite (convert_class t Hc).
-    rewrite (sample_ok_class t Hc). rewrite negb_involutive.
+    rewrite (sample_ok_class t). cbn [negb].
     unfold key_of. rewrite first_group_class. reflexivity.
 Qed.
 
@@ -1002,12 +976,14 @@ Lemma newline_final_refuted_l :
   aip_contribution t_dstar_only v_final_nl = Some ("k", v_final_nl).
 Proof. vm_compute. split; reflexivity. Qed.
 
-Definition t_dotted : tmpl := {| t_pre := [SLit "a.b"]; t_key := "k"; t_short := false; t_sub := [SStar]; t_post := [] |}.
-Lemma unescaped_literal_refuted_l :
-  exists t v, nl_free v = true /\ tmpl_print t = "a.b/{k=*}" /\
-    contribution {| p_field := "f"; p_template := tmpl_print t |} v = Ok (Some ("k", "c")) /\
-    aip_contribution t v = None.
-Proof. exists t_dotted, "aXb/c". vm_compute. repeat split; reflexivity. Qed.
+(* literal text is escaped: a dot (or any other metacharacter) in a literal segment matches only itself *)
+Definition t_dotted : tmpl := {| t_pre := [SLit "a.b"; SLit "c+(d)"]; t_key := "k"; t_short := false; t_sub := [SStar]; t_post := [] |}.
+Lemma escaped_literal_ex :
+  aip_class t_dotted = true /\ tmpl_print t_dotted = "a.b/c+(d)/{k=*}" /\
+  regex_str "a.b/c+(d)/{k=*}" = Ok "^a\.b/c\+\(d\)/(?P<k>[^/]+)$" /\
+  contribution {| p_field := "f"; p_template := tmpl_print t_dotted |} "aXb/c+(d)/v" = Ok None /\
+  contribution {| p_field := "f"; p_template := tmpl_print t_dotted |} "a.b/c+(d)/v" = Ok (Some ("k", "v")).
+Proof. vm_compute. repeat split; reflexivity. Qed.
 
 Definition t_dstar_inside : tmpl := {| t_pre := []; t_key := "k"; t_short := false; t_sub := [SDstar; SLit "x"]; t_post := [] |}.
 Lemma dstar_inside_refuted_l :
@@ -1265,7 +1241,7 @@ Definition sparam_param (sp : sparam) : param :=
 Definition sparam_ok (sp : sparam) : bool :=
   match sp with
   | SPlain _ => true
-  | STmpl _ t => aip_class t && negb (t_short t) && repr_fits ("^" ++ rx_print (rx_of t) ++ "$")
+  | STmpl _ t => aip_class t
   end.
 Definition sparam_block (sp : sparam) : block :=
   match sp with
@@ -1285,7 +1261,7 @@ Definition spec_header (sps : list sparam) (req : request) : option string :=
   end.
 
 Lemma sparam_ok_class sp : sparam_ok sp = true -> match sp with SPlain _ => True | STmpl _ t => aip_class t = true end.
-Proof. destruct sp as [f|f t]; simpl; [trivial|]. intro H. apply andb_true_iff in H as [H _]. now apply andb_true_iff in H as [H _]. Qed.
+Proof. destruct sp as [f|f t]; simpl; [trivial|]. now intro H. Qed.
 
 Lemma contributions_spec req : forall sps,
   forallb sparam_ok sps = true ->
@@ -1308,22 +1284,20 @@ Proof.
   simpl in Hok. apply andb_true_iff in Hok as [Hsp Hok]. cbn [map map_res]. rewrite (IH Hok).
   destruct sp as [f|f t]; cbn [sparam_param sparam_block].
   - reflexivity.
-  - cbn [sparam_ok] in Hsp. apply andb_true_iff in Hsp as [Hsp Hfit]. apply andb_true_iff in Hsp as [Hc Hns].
-    apply negb_true_iff in Hns.
-    destruct (routing_contribution_correct_l t f "" Hc eq_refl) as [_ Hemit]. rewrite Hemit, Hns, Hfit. reflexivity.
+  - cbn [sparam_ok] in Hsp.
+    destruct (routing_contribution_correct_l t f "" Hsp eq_refl) as [_ Hemit]. rewrite Hemit. reflexivity.
 Qed.
 
 Lemma explicit_header_spec_l m sps req :
-  sps <> [] ->
   m_explicit m = Some (map sparam_param sps) -> m_client_streaming m = false ->
   forallb sparam_ok sps = true ->
   forallb (fun sp => nl_free (req (disambiguated (sp_field sp)))) sps = true ->
   emit_metadata m = Ok (EExplicit (map sparam_block sps)) /\
   header_of m req = Ok (spec_header sps req).
 Proof.
-  intros Hne He Hs Hok Hnl.
+  intros He Hs Hok Hnl.
   assert (Hem : emit_metadata m = Ok (EExplicit (map sparam_block sps))).
-  { unfold emit_metadata. rewrite He, Hs. rewrite (emit_spec sps Hok). destruct sps; [congruence|reflexivity]. }
+  { unfold emit_metadata. rewrite He, Hs. now rewrite (emit_spec sps Hok). }
   split; [exact Hem|].
   rewrite (header_explicit m _ req _ _ He Hs Hem (contributions_spec req sps Hok Hnl)). reflexivity.
 Qed.
